@@ -190,6 +190,7 @@ def run_dependencies(r):
     check_series_positions(r, pre + "POS", reach | entries)
     check_sparse_zero_distances(r, pre + "SPARSE0", reach | entries)
     check_arguments_untouched(r, pre + "ARGS", reach | entries)
+    check_label_selection(r, pre + "LABEL", reach | entries)
     if any(q.startswith("pyrepseq.nn.") and q.rsplit(".", 1)[1] in ("_to_triplets", "kdtree", "_kdtree_leven") for q in reach):
         check_start_method(r, pre + "START-METHOD")
         ran.append("start-method")
@@ -959,3 +960,82 @@ def check_arguments_untouched(r, rule, functions):
             r.rep.ob(rule, q, False, f"argument '{name}' is modified in place, so a later call on the same object computes from altered data",
                      f"{r.P.modules[r.P.functions[path[-1][0]].module].relpath}:{path[-1][1]}", expected="no write through any alias of the argument",
                      found=what + "  via " + " -> ".join(f"{p.rsplit('.', 1)[1]}:{l}" for p, l in path), key=f"argument modified {q.rsplit('.', 1)[1]} {name}", lint=True)
+
+
+_MASK_METHODS = {"isin", "isna", "notna", "isnull", "notnull", "duplicated", "startswith", "endswith", "contains", "match", "fullmatch", "between", "eq", "ne", "lt", "le", "gt", "ge", "any", "all", "astype"}
+
+
+def _maskish(t):
+    t = strip(t)
+    h = head(t)
+    if h in ("cmp", "slice", "const"):
+        return True
+    if h == "un" and t[1] in ("~", "not"):
+        return _maskish(t[2])
+    if h == "bin" and t[1] in ("&", "|", "^"):
+        return _maskish(t[2]) and _maskish(t[3])
+    if h == "call" and head(strip(t[1])) == "attr" and strip(t[1])[2] in _MASK_METHODS:
+        return True
+    return False
+
+
+def check_label_selection(r, rule, functions):
+    """Index labels of the caller's table need not be unique (two donors stacked with pd.concat, a constant index).  ``table.loc[labels]``
+    returns *every* row carrying each label, and ``table[table.index.isin(labels)]`` keeps every row whose label was drawn: a 'subset of
+    m rows' chosen that way has more than m rows, a per-group fill writes into rows of other groups.  Rows of an argument are selected by
+    position (.iloc, a positional mask) or after reset_index.  Flagged: .loc with a row indexer that is not a mask / slice on a table that
+    is (derived from) an argument, and .index.isin(..) of such a table.  Lint: recognisably wrong whatever surrounds it."""
+    from .rules import where_of
+    from .terms import show, strip_all, walk
+    seen = set()
+
+    def caller_table(t):
+        sub = list(walk(("t", t)))
+        if any(head(y) == "call" and head(strip(y[1])) == "attr" and strip(y[1])[2] in ("reset_index", "to_numpy", "tolist") for y in sub):
+            return False
+        if any(head(y) == "call" and head(strip(y[1])) == "glob" and strip(y[1])[1] in ("pandas.DataFrame", "pandas.Series", "pandas.concat", "pandas.merge") for y in sub):
+            return False
+        return any(head(y) == "param" for y in sub)
+
+    for q in sorted(functions):
+        if q not in r.P.functions:
+            continue
+        try:
+            s = r.A.summary(q)
+        except AnalysisBroken:
+            continue
+        cands = []
+        for e in s.events:
+            if e.kind in ("setitem", "load_sub") and isinstance(e.get("obj"), tuple) and isinstance(e.get("index"), tuple):
+                cands.append((e, strip(e["obj"]), e["index"]))
+            for v in e.data.values():
+                if isinstance(v, tuple):
+                    for x in walk(("t", v)):
+                        if head(x) == "sub":
+                            cands.append((e, strip(x[1]), x[2]))
+                        elif head(x) == "call" and head(strip(x[1])) == "attr" and strip(x[1])[2] == "isin":
+                            recv = strip(strip(x[1])[1])
+                            if head(recv) == "attr" and recv[2] == "index" and caller_table(recv[1]):
+                                cands.append((e, ("isin", recv[1]), x))
+        for x in walk(("t", s.ret)):
+            if head(x) == "sub":
+                cands.append((None, strip(x[1]), x[2]))
+        for e, obj, idx in cands:
+            if head(obj) == "isin":
+                what, tab = f"{show(idx, 80)}: keeps every row whose label is among the drawn labels", obj[1]
+            elif head(obj) == "attr" and obj[2] == "loc" and caller_table(obj[1]):
+                row = strip(idx)
+                if head(row) == "tuple" and row[1]:
+                    row = strip(row[1][0])
+                if _maskish(row):
+                    continue
+                what, tab = f"{show(obj, 50)}[{show(idx, 50)}]: returns / writes every row carrying each label", obj[1]
+            else:
+                continue
+            key = (q, show(strip_all(tab), 40), head(obj) == "isin")
+            if key in seen:
+                continue
+            seen.add(key)
+            node = e.node if e is not None else s.func.node
+            r.rep.ob(rule, q, False, "rows of the caller's table are addressed by position (index labels may repeat)", where_of(r.P, s.func, node),
+                     expected=".iloc / positional mask / reset_index(drop=True) first", found=what, key=f"label selection {q.rsplit('.', 1)[1]} {show(strip_all(tab), 30)} {'isin' if head(obj) == 'isin' else 'loc'}", lint=True)
